@@ -194,12 +194,51 @@ func ruleReturnRoute(c *Ctx, rule string, serverSites []*Envelope) {
 		root := p.fnKey(rootFn(env.Fn))
 		st := env.HFields["ProxyNext"].Stores[0]
 		o := e.Of(st.Val)
-		okR, why := o.AllMatch("slice(field(ProxyRecord,$H),const(0),binop(-,len(field(ProxyRecord,$H)),const(1)))")
+		// either the record minus its last hop, or (on the other branch of the len > 1 test) nothing
+		okR, why := o.AllMatch("slice(field(ProxyRecord,$H),const(0),binop(-,len(field(ProxyRecord,$H)),const(1)))", "const(nil)")
+		// the guard holds where the slice is taken (the store itself may sit after the join)
+		var slices []ssa.Instruction
+		seenV := map[ssa.Value]bool{}
+		var walkV func(v ssa.Value)
+		walkV = func(v ssa.Value) {
+			if seenV[v] {
+				return
+			}
+			seenV[v] = true
+			switch x := v.(type) {
+			case *ssa.Slice:
+				slices = append(slices, x)
+			case *ssa.Phi:
+				for _, ed := range x.Edges {
+					walkV(ed)
+				}
+			case *ssa.Call:
+				// a helper that computes the route: look at what it returns
+				if g := x.Call.StaticCallee(); g != nil && p.inScope[g] {
+					for _, r := range returnsOf(g) {
+						for _, rv := range retVals(r) {
+							walkV(rv)
+						}
+					}
+				}
+			}
+		}
+		walkV(st.Val)
 		fs := p.Facts(st)
-		guard := false
-		for k := range fs {
-			if strings.HasPrefix(k, "cmp>(len(") && strings.HasSuffix(k, ".Header.ProxyRecord),const:1)") {
-				guard = true
+		guard := len(slices) > 0
+		for _, sl := range slices {
+			fs = p.Facts(sl)
+			g := false
+			if fs[atom("cmp>", "len("+p.lpath(sl.(*ssa.Slice).X)+")", "const:1")] {
+				g = true // len(x) > 1 for the very x that is sliced (the origin pattern says x is the route record)
+			}
+			for k := range fs {
+				if strings.HasPrefix(k, "cmp>(len(") && strings.HasSuffix(k, ".Header.ProxyRecord),const:1)") {
+					g = true
+				}
+			}
+			if !g {
+				guard = false
 			}
 		}
 		c.check(rule, root+":ProxyNext", okR && guard, "return route = request's route record minus its last hop, under len>1: "+why+" facts "+fs.String(), p.ipos(st))
